@@ -228,8 +228,8 @@ CHECKS["C02"] = {
 
 CHECKS["C16"] = {
     "corpus": True,
-    "runs": [R("./vm", {"fn": r"^ZZ_C16_(sequential|go_args|go_call_shapes|pipeline_quick|blocked_receiver|fan_in)$"}, {"fn": r"^ZZ_C16_(sequential|go_args|go_call_shapes|pipeline|blocked_receiver|fan_in|fan_in_2)$", "wall_timeout": 10000})],
-    "expect_asserts": [r"C16\.fifo/order-and-values", r"C16\.closed/drained-receive-yields-nil", r"C16\.receive-stmt/ok-false-when-closed", r"C16\.go/arguments-before-callee-starts", r"C16\.pipeline/in-order", r"C16\.send-on-closed-is-error", r"C16\.blocked-receiver/ok-false-when-closed/.*"],
+    "runs": [R("./vm", {"fn": r"^ZZ_C16_(sequential|go_args|go_call_shapes|pipeline_quick|blocked_receiver|fan_in|producer_outlives_run)$"}, {"fn": r"^ZZ_C16_(sequential|go_args|go_call_shapes|pipeline|blocked_receiver|fan_in|fan_in_2|producer_outlives_run)$", "wall_timeout": 10000})],
+    "expect_asserts": [r"C16\.fifo/order-and-values", r"C16\.closed/drained-receive-yields-nil", r"C16\.receive-stmt/ok-false-when-closed", r"C16\.go/arguments-before-callee-starts", r"C16\.pipeline/in-order", r"C16\.send-on-closed-is-error", r"C16\.blocked-receiver/ok-false-when-closed/.*", r"C16\.producer-outlives-run/later-run-receives-every-item/.*"],
     "bounds": {"quick": "sequential: buffered channels of capacity 3 over int64/interface elements, symbolic values; blocked receiver: 4 receive forms x 2 element types x capacity 0/1/4 x a producer that (sends 0..2 values and) closes while the receiver is already blocked; fan-in: 2 producers x 1 value into a channel of capacity 1|2, <= 3 context switches (thorough: 2 values, 4 switches); pipelines: 0..2 items, unbuffered / capacity 1, 0..1 relay stage, <= 3 context switches at channel operations (all schedules within that bound)",
                "thorough": "0..3 items, capacity 0..2, <= 4 context switches"},
     "stubs": ["channels, select, goroutines: engine coroutine model of Go's specified channel semantics; a switch can happen at every channel operation and goroutine start"],
